@@ -28,6 +28,7 @@ func menus(lim limits) []menu {
 			[]string{"z", "frac", "compact", "nil", "empty", "date", "nozone", "badsep", "40"}},
 		{"host", []string{"sentHost", "", "-", long, "ho\xffst", "ho/st"}, []string{"ok", "empty", "nil", "long", "ff", "slash"}},
 		{"app", []string{"sentApp", "", "-", long, "ap\xffp", "sentApp/vhost.example.com"}, []string{"ok", "empty", "nil", "long", "ff", "slash"}},
+		{"pid", []string{"1"}, []string{"1"}},
 		{"msgid", []string{"sent.log", "", "-", long, "ms\xffg", "dir/file.log", "job.log:0123abcd-ef"}, []string{"ok", "empty", "nil", "long", "ff", "slash", "task"}},
 		{"sd", []string{"-", "[x]"}, []string{"nil", "x"}},
 		{"msg", []string{
@@ -66,7 +67,7 @@ func menuID(ms []menu, idx []int) string {
 	for i, m := range ms {
 		parts[i] = m.tags[idx[i]]
 	}
-	return strings.Join(parts, ".")
+	return strings.Join(parts, ".") // pri.ts.host.app.pid.msgid.sd.msg
 }
 
 var stdSentinels = newSentinels("std", "<13>1 2020-01-01T00:00:01Z sentHost sentApp 1 sent.log - ")
@@ -242,7 +243,7 @@ func diag() {
 		pprof.StartCPUProfile(fh)
 		defer pprof.StopCPUProfile()
 	}
-	for _, lim := range []limits{scaled, prod} {
+	for _, lim := range []limits{scaled} {
 		h.baseline(lim, stdSentinels)
 		t0 := time.Now()
 		n := 2000
